@@ -490,6 +490,41 @@ for _w in ('none', 'both'):
 
 
 # ---------------------------------------------------------------------------------------------
+# reads by line NUMBER (C02 / C05 / C14): the ordinal is the position of the number on the file's axis
+
+class ReadByNumber(ReadContract):
+    """read_inline_number / read_crossline_number(no): IndexError iff `no` is not a line number of the file; otherwise exactly what the
+    ordinal read of the line carrying that number returns (same value, same read log)"""
+    axis = 'ilines'
+    arg = 'il_no'
+    base = None
+
+    def inputs(self, c):
+        g, rd = self.reader(c)
+        no = c.sym_int('no', name=self.arg)
+        a0, d = rd.fields[self.axis].prog
+        rel = sub(no, a0)
+        k = fdiv(rel, d)
+        n = g.nI if self.axis == 'ilines' else g.nX
+        on = And(eq(mod(rel, d), 0), ge(k, 0), lt(k, n))
+        return {'self': rd, '_g': g, self.arg: no, '_on': on, '_k': k}
+
+    def raises(self, c, a):
+        return {'IndexError': Not(a['_on'])}
+
+    def post(self, c, a, result):
+        b = dict(a)
+        b['il_id' if self.axis == 'ilines' else 'xl_id'] = a['_k']
+        self.base.post(self, c, b, result)
+
+
+for _ax, _arg, _m, _base in (('ilines', 'il_no', 'read_inline_number', ReadInline), ('xlines', 'xl_no', 'read_crossline_number', None)):
+    _b = _base or ReadCrossline
+    _cls = type('ReadByNumber_' + _m, (ReadByNumber, _b), dict(axis=_ax, arg=_arg, base=_b, inputs=ReadByNumber.inputs, raises=ReadByNumber.raises, post=ReadByNumber.post))
+    register(_cls, f'read.py::SgzReader.{_m}', ['C02', 'C05', 'C14'], [CFG_DEFAULT[3], CFG_ZSLICE[0], CFG_GENERAL[5]], modes=('file',))
+
+
+# ---------------------------------------------------------------------------------------------
 # irregular surveys (C08): trace ordinal -> grid position through the population mask
 
 def footer_i32(off):
